@@ -236,11 +236,6 @@ func wrongPasswords(correct []byte) []wrongPw {
 // is not executed. The lenient parse below uses the same encoding/asn1 shapes as the library, so a mutant that
 // does not parse here cannot reach a KDF in the library either.
 
-type kdfProbe struct {
-	Salt []byte
-	A    int
-	Rest []asn1.RawValue `asn1:"optional"`
-}
 type scryptProbe struct {
 	Salt    []byte
 	N, R, P int
